@@ -1827,7 +1827,15 @@ func (b *Block) setExportedVars() (err error) {
 		return fmt.Errorf("number of labels (%d) exceeds what can be contained in max block size %d", numLabels, MaxBlockSize)
 	}
 
-	b.Labels, err = dvid.AliasByteToUint64(b.data[16 : 16+numLabels*8])
+	// All sections are located by counts embedded in the data, so check each against
+	// the actual number of bytes before slicing.
+	dataLen := uint64(len(b.data))
+	pos := uint64(16)
+	end := pos + uint64(numLabels)*8
+	if end > dataLen {
+		return fmt.Errorf("block of %d bytes is too small for its %d labels", dataLen, numLabels)
+	}
+	b.Labels, err = dvid.AliasByteToUint64(b.data[pos:end])
 	if err != nil {
 		return
 	}
@@ -1838,28 +1846,38 @@ func (b *Block) setExportedVars() (err error) {
 		b.SBValues = nil
 		return
 	}
+	if numSubBlocks == 0 {
+		return fmt.Errorf("block with %d labels has no sub-blocks (%d x %d x %d)", numLabels, gx, gy, gz)
+	}
 
-	pos := uint32(16)
-	pos += numLabels * 8
-	nbytes := numSubBlocks * 2
-	b.NumSBLabels, err = dvid.AliasByteToUint16(b.data[pos : pos+nbytes])
+	pos = end
+	end = pos + uint64(numSubBlocks)*2
+	if end > dataLen {
+		return fmt.Errorf("block of %d bytes is too small for its %d labels and %d sub-blocks", dataLen, numLabels, numSubBlocks)
+	}
+	b.NumSBLabels, err = dvid.AliasByteToUint16(b.data[pos:end])
 	if err != nil {
 		return
 	}
-	var numSubBlockIndices uint32
+	var numSubBlockIndices uint64
 	for _, num := range b.NumSBLabels {
-		numSubBlockIndices += uint32(num)
+		numSubBlockIndices += uint64(num)
 	}
 
-	pos += nbytes
-	subBlockIndexBytes := numSubBlockIndices * 4
-	b.SBIndices, err = dvid.AliasByteToUint32(b.data[pos : pos+subBlockIndexBytes])
-	if err != nil {
-		return
+	pos = end
+	end = pos + numSubBlockIndices*4
+	if end > dataLen {
+		return fmt.Errorf("block of %d bytes is too small for its %d labels, %d sub-blocks and %d sub-block indices", dataLen, numLabels, numSubBlocks, numSubBlockIndices)
+	}
+	b.SBIndices = nil
+	if numSubBlockIndices != 0 {
+		b.SBIndices, err = dvid.AliasByteToUint32(b.data[pos:end])
+		if err != nil {
+			return
+		}
 	}
 
-	pos += subBlockIndexBytes
-	b.SBValues = b.data[pos:]
+	b.SBValues = b.data[end:]
 	return
 }
 
